@@ -47,6 +47,14 @@ let posmod a m = ((a mod m) + m) mod m
 (* built node: iterable, basesz, haslen, hasget *)
 type info = { it : iterable; basesz : int; haslen : bool; hasget : bool }
 let raised = ref 0
+(* identities: the elements of the leaf containers are numbered in the order the leaves (prefix order) yield them *)
+let next_id = ref 0
+let obj v = match v with VInt z -> let i = !next_id in incr next_id; VObj (z_of_int i, z) | _ -> v
+let objs vs = List.map obj vs
+let obj_slots sl = List.map (function Some v -> Some (obj v) | None -> None) sl
+let rec obj_tree t = match t with
+  | TLeaf -> TLeaf
+  | TNode (l, k, r) -> let l' = obj_tree l in let k' = obj k in let r' = obj_tree r in TNode (l', k', r')
 let slices : rng list ref = ref []          (* prefix order *)
 let leaves : (iterable * int) list ref = ref []
 let tabs : val0 option list list ref = ref []
@@ -58,12 +66,12 @@ let rec build (a : ast) : info =
     let n = List.length xs in
     let vs = List.map (fun z -> VInt z) zs in
     let it, hasget = match k with
-      | "arr" -> IArray vs, true
-      | "list" -> IList vs, true
-      | "tup" -> ITuple (List.mapi (fun i v -> (nat_of_int i, v)) vs), true
+      | "arr" -> IArray (objs vs), true
+      | "list" -> IList (objs vs), true
+      | "tup" -> ITuple (List.mapi (fun i v -> (nat_of_int i, v)) (objs vs)), true
       | "tupr" -> ITuple (List.map (fun z -> let id = (int_of_z z) land 63 in (nat_of_int id, VInt (z_of_int id))) zs), true
-      | "tab" -> let sl = table_slots zs in tabs := !tabs @ [sl]; ITable sl, false
-      | _ -> ITree (tree_build zs), false in
+      | "tab" -> let sl = table_slots zs in tabs := !tabs @ [sl]; ITable (obj_slots sl), false
+      | _ -> ITree (obj_tree (tree_build zs)), false in
     if k = "tab" || k = "tree" then leaves := !leaves @ [(it, n)];
     { it; basesz = n; haslen = true; hasget }
   | Hist (k, ops) ->
@@ -74,8 +82,8 @@ let rec build (a : ast) : info =
         | 'k' -> Some (KSet (z_of_dec (rest o))) | 'r' -> Some (KRem (z_of_dec (rest o)))
         | 'z' -> Some (KResize (nat_of_int (int_of_string (rest o)))) | _ -> None) ops in
       let it = if k = "tabh" then begin
-          let (sl, r) = table_hist kops in raised := !raised + int_of_nat r; tabs := !tabs @ [sl]; ITable sl end
-        else begin let (t, r) = tree_hist kops in raised := !raised + int_of_nat r; ITree t end in
+          let (sl, r) = table_hist kops in raised := !raised + int_of_nat r; tabs := !tabs @ [sl]; ITable (obj_slots sl) end
+        else begin let (t, r) = tree_hist kops in raised := !raised + int_of_nat r; ITree (obj_tree t) end in
       leaves := !leaves @ [(it, 64)];
       { it; basesz = 64; haslen = true; hasget = false }
     end else begin
@@ -89,7 +97,7 @@ let rec build (a : ast) : info =
       let sk = if k = "arrh" then KArr else if k = "listh" then KList else KTup in
       let (zs, r) = m_hist sk init hops O in
       raised := !raised + int_of_nat r;
-      let vs = List.map (fun z -> VInt z) zs in
+      let vs = objs (List.map (fun z -> VInt z) zs) in
       let it = match sk with
         | KArr -> IArray vs | KList -> IList vs
         | KTup -> ITuple (List.mapi (fun i v -> (nat_of_int i, v)) vs) in
@@ -120,14 +128,15 @@ let rec build (a : ast) : info =
     { it = ok (m_enumerate ui.it); basesz = 2 * ui.basesz; haslen = ui.haslen; hasget = ui.hasget }
   | Filter (id, u) ->
     let ui = build u in
-    { it = IFilter (m_pred (nat_of_int (posmod id 6)), ui.it); basesz = ui.basesz; haslen = false; hasget = false }
+    { it = IFilter (m_pred (nat_of_int (posmod id 9)), ui.it); basesz = ui.basesz; haslen = false; hasget = false }
   | Map (id, u) ->
     let ui = build u in
-    { it = IMap (m_fun (nat_of_int (posmod id 5)), ui.it); basesz = ui.basesz; haslen = ui.haslen; hasget = ui.hasget }
+    { it = IMap (m_fun (nat_of_int (posmod id 7)), ui.it); basesz = ui.basesz; haslen = ui.haslen; hasget = ui.hasget }
 and mkrng_dummy () = { r_start = Z0; r_stop = Z0; r_step = Z0 }
 
 let rec show v = match v with
   | VInt z -> z_to_dec z
+  | VObj (id, z) -> z_to_dec z ^ "@" ^ z_to_dec id
   | VTup vs -> "(" ^ String.concat " " (List.map show vs) ^ ")"
 
 let fuel = nat_of_int 20000
@@ -141,7 +150,7 @@ let walk_s d cut it =
 
 let () =
   read_lines (fun line ->
-    slices := []; leaves := []; tabs := []; raised := 0;
+    slices := []; leaves := []; tabs := []; raised := 0; next_id := 0;
     try
       let a, rest = parse (String.split_on_char ' ' line) in
       if rest <> [] then failwith "trailing";
